@@ -30,7 +30,7 @@ def build_case(rng, spec, tier):
            "overwrite": False, "rules": []}
     base = gen_history(rng, cfg, pool, set(), rng.choice((3, 6, 10)),
                        weights={"add_page": 4, "add_pages": 1, "add_links": 6, "batch": 2, "create": 2, "addp": 1, "delete": 0, "rmp": 0,
-                                "mvp": 0, "rule": 0, "rmrule": 0})
+                                "mvp": 0, "rule": 0, "rmrule": 0, "reopen": 0, "clear": 0, "bad_delete": 0, "bad_rmp": 0, "bad_mvp": 0})
     reqs = []
     nb = rng.choice([1, 1, 2])
     for _ in range(nb):
